@@ -2,7 +2,7 @@ CONSTANTS D = 1  Mode = "chained"  Lo = 0  Hi = 3  N = 0
   ShapeSet <- MCShapes
   SizeTermSt = {"completed"}
   ElemTermSt = {"completed", "failed"}
-  OrderSet <- Free
+  OrderFor <- Free
   Drop = TRUE  Eager = TRUE  Record = TRUE
 INIT Init
 NEXT GenNext
